@@ -178,6 +178,72 @@ def registration_eval(prog):
     return out
 
 
+def checks_eval(prog):
+    """FormatChecker.checks(format, raises)(fn) on a checker object: the entry for that name *is* (fn, raises) afterwards, whatever
+    was there before -- a name the checker already knows, the same function again with another `raises`, the empty name -- and
+    check() then consults exactly that entry.  -> {clause: message | None} or None."""
+    out = {"latest-wins": None}
+    try:
+        ev = Ev(prog, fuel=40000, real_errors=True)
+        Obj.ev = ev
+        c = prog.cls("_format.FormatChecker")
+        fc = ClsRef(ev, c)
+        calls = []
+
+        def mk(tag, result=True, exc=None):
+            def fn(instance):
+                calls.append(tag)
+                if exc is not None:
+                    raise exc
+                return result
+            return fn
+        first, second = mk("first", True), mk("second", False)
+        o = fc()
+        g = lambda n: ev.obj_getattr(o, n)
+        g("checks")("known")(first)
+        ret = g("checks")("known", ValueError)(second)
+        table = g("checkers")
+        if ret is not second or table.get("known") != (second, ValueError):
+            out["latest-wins"] = "registering a function under a name the checker already knows leaves the entry %r; the later registration must replace it" % (table.get("known"),)
+        else:
+            del calls[:]
+            try:
+                g("check")("x", "known")
+                out["latest-wins"] = "after re-registering a rejecting function under a known name check() still passes (functions consulted: %r)" % (calls,)
+            except PyRaise as pr:
+                if pr.name != "FormatError" or calls != ["second"]:
+                    out["latest-wins"] = "after re-registration check() consults %r and ends in %s" % (calls, pr.name)
+        # the same function again, now with a `raises`: the new raises is in force
+        boom = mk("boom", exc=PyRaise("ValueError", "bad"))
+        g("checks")("again")(boom)
+        g("checks")("again", raises=ValueError)(boom)
+        if table.get("again") != (boom, ValueError) and g("checkers").get("again") != (boom, ValueError):
+            out["latest-wins"] = out["latest-wins"] or ("registering the same function again with raises=ValueError leaves the entry %r: the earlier `raises` stays in force"
+                                                        % (g("checkers").get("again"),))
+        # the empty string is a format name like any other
+        empty = mk("empty", False)
+        g("checks")("")(empty)
+        if g("checkers").get("") != (empty, ()):
+            out["latest-wins"] = out["latest-wins"] or "a function registered under the empty format name is not in the table (found %r)" % (g("checkers").get(""),)
+        else:
+            try:
+                g("check")(1, "")
+                out["latest-wins"] = out["latest-wins"] or "the function registered under the empty format name is not consulted by check()"
+            except PyRaise as pr:
+                if pr.name != "FormatError":
+                    raise
+        # a built-in name overridden on one checker object: the class-wide table is untouched
+        clsw_before = dict(ev.class_attr(c, "checkers"))
+        g("checks")("email")(second)
+        if dict(ev.class_attr(c, "checkers")) != clsw_before:
+            out["latest-wins"] = out["latest-wins"] or "registering on a checker object changes the class-wide table"
+    except Undecided:
+        return None
+    except PyRaise as pr:
+        out["raises"] = "raises %s (%s)" % (pr.name, pr.msg)
+    return out
+
+
 def guard_eval(prog, f):
     """A built-in checker handed a value that is not a string: True, and the value is not looked at (any operation on the
     opaque token is outside the fragment).  -> None (holds) | message | "undecided"."""
